@@ -33,6 +33,10 @@ pub enum SOp {
     Retain(u8),
     Reserve(u16),
     Len,
+    /// full iteration: 0 `iter(&guard)`, 1 `pin().iter()`, 2 `(&pin()).into_iter()`
+    IterAll(u8),
+    /// `serde_json::to_string(&set)` (0) / of the pinned reference (1), parsed back
+    Serialize(u8),
 }
 
 #[derive(Clone, Debug, PartialEq, Eq, Serialize, Deserialize)]
@@ -60,6 +64,8 @@ pub struct SetOut {
     pub faults: Vec<String>,
     /// (thread, inv, resp) of every retain call
     pub retains: Vec<(u8, u64, u64)>,
+    /// (thread, inv, resp, what, keys yielded) of every full traversal (iteration, serialisation)
+    pub walks: Vec<(u8, u64, u64, String, Vec<u32>)>,
     pub init: BTreeMap<u32, u64>,
     pub fin: BTreeMap<u32, u64>,
     pub trace: Vec<sched::TraceEnt>,
@@ -70,7 +76,7 @@ pub struct SetOut {
     pub fin_len: usize,
 }
 
-fn run_thread(wk: &Wk<'_>, set: &FSet, prog: &SetProg, ops: &[SOp], recs: &mut Vec<HEnt>, faults: &mut Vec<String>, retains: &mut Vec<(u8, u64, u64)>) {
+fn run_thread(wk: &Wk<'_>, set: &FSet, prog: &SetProg, ops: &[SOp], recs: &mut Vec<HEnt>, faults: &mut Vec<String>, retains: &mut Vec<(u8, u64, u64)>, walks: &mut Vec<(u8, u64, u64, String, Vec<u32>)>) {
     let me = wk.me as u8;
     let tg = if prog.facade == SFacade::GuardPerThread { Some(set.guard()) } else { None };
     for op in ops {
@@ -182,6 +188,28 @@ fn run_thread(wk: &Wk<'_>, set: &FSet, prog: &SetProg, ops: &[SOp], recs: &mut V
                 }
                 wk.op_end();
             }
+            SOp::IterAll(kind) => {
+                let inv = wk.op_start();
+                let keys: Vec<u32> = match (kind % 3, g) {
+                    (0, Some(g)) => set.iter(g).map(|k| k.tag).collect(),
+                    (1, _) | (0, None) => set.pin().iter().map(|k| k.tag).collect(),
+                    _ => {
+                        let r = set.pin();
+                        (&r).into_iter().map(|k| k.tag).collect()
+                    }
+                };
+                let resp = wk.op_end();
+                walks.push((me, inv, resp, format!("set iteration (kind {})", kind % 3), keys));
+            }
+            SOp::Serialize(kind) => {
+                let inv = wk.op_start();
+                let js = if kind % 2 == 0 { serde_json::to_string(set) } else { serde_json::to_string(&set.pin()) };
+                let resp = wk.op_end();
+                match js.map_err(|e| e.to_string()).and_then(|j| serde_json::from_str::<Vec<u32>>(&j).map_err(|e| format!("{} ({:?})", e, j))) {
+                    Ok(keys) => walks.push((me, inv, resp, format!("serialisation of the set{}", if kind % 2 == 0 { "" } else { " (pinned reference)" }), keys)),
+                    Err(e) => faults.push(format!("C19: serialising the set gave a document that does not parse as a list of keys: {}", e)),
+                }
+            }
             SOp::Len => {
                 wk.op_start();
                 let l = set.len();
@@ -213,7 +241,7 @@ pub fn exec(pool: &Pool, prog: &SetProg, switches: Vec<(u64, u8)>, random: Optio
     }
     let len_before = crate::inspect::shape(&unsafe { set.verif_dump() }).table_len;
     let set = Arc::new(set);
-    let slots: Vec<Arc<Mutex<(Vec<HEnt>, Vec<String>, Vec<(u8, u64, u64)>)>>> = (0..prog.threads.len()).map(|_| Arc::new(Mutex::new((Vec::new(), Vec::new(), Vec::new())))).collect();
+    let slots: Vec<Arc<Mutex<(Vec<HEnt>, Vec<String>, Vec<(u8, u64, u64)>, Vec<(u8, u64, u64, String, Vec<u32>)>)>>> = (0..prog.threads.len()).map(|_| Arc::new(Mutex::new((Vec::new(), Vec::new(), Vec::new(), Vec::new())))).collect();
     let mut bodies: Vec<Body> = Vec::new();
     for (ti, ops) in prog.threads.iter().enumerate() {
         let set = set.clone();
@@ -224,8 +252,9 @@ pub fn exec(pool: &Pool, prog: &SetProg, switches: Vec<(u64, u8)>, random: Optio
             let mut recs = Vec::new();
             let mut faults = Vec::new();
             let mut retains = Vec::new();
-            let r = std::panic::catch_unwind(std::panic::AssertUnwindSafe(|| run_thread(wk, &set, &prog, &ops, &mut recs, &mut faults, &mut retains)));
-            *slot.lock().unwrap() = (recs, faults, retains);
+            let mut walks = Vec::new();
+            let r = std::panic::catch_unwind(std::panic::AssertUnwindSafe(|| run_thread(wk, &set, &prog, &ops, &mut recs, &mut faults, &mut retains, &mut walks)));
+            *slot.lock().unwrap() = (recs, faults, retains, walks);
             drop(set);
             if let Err(e) = r {
                 std::panic::resume_unwind(e);
@@ -236,11 +265,13 @@ pub fn exec(pool: &Pool, prog: &SetProg, switches: Vec<(u64, u8)>, random: Optio
     let mut ops = Vec::new();
     let mut faults = Vec::new();
     let mut retains = Vec::new();
+    let mut walks = Vec::new();
     for s in &slots {
         let mut g = s.lock().unwrap();
         ops.append(&mut g.0);
         faults.append(&mut g.1);
         retains.append(&mut g.2);
+        walks.append(&mut g.3);
     }
     let mut fin = BTreeMap::new();
     let mut len_after = 0;
@@ -288,7 +319,7 @@ pub fn exec(pool: &Pool, prog: &SetProg, switches: Vec<(u64, u8)>, random: Optio
             }
         }
     }
-    SetOut { verdict: out.verdict, ops, faults, retains, init, fin, trace: out.trace, performed: out.performed, steps: out.steps, len_before, len_after, fin_len }
+    SetOut { verdict: out.verdict, ops, faults, retains, walks, init, fin, trace: out.trace, performed: out.performed, steps: out.steps, len_before, len_after, fin_len }
 }
 
 /// Err((property, message)) or Ok(keys with overlapping writes)
@@ -303,6 +334,27 @@ pub fn judge(out: &SetOut) -> Result<u64, (String, String)> {
     if let Some(f) = out.faults.first() {
         let prop = f.split(':').next().unwrap_or("C01").to_string();
         return Err((prop.clone(), format!("[{}] {}", prop, f)));
+    }
+    // full traversals are weakly consistent: a key that was present before the traversal began and
+    // that no operation touched before it ended must be yielded exactly once; a key that was absent
+    // and that nobody inserted before the traversal ended must not be yielded; nothing twice
+    for (t, inv, resp, what, keys) in &out.walks {
+        let mut sorted = keys.clone();
+        sorted.sort();
+        if let Some(w) = sorted.windows(2).find(|w| w[0] == w[1]) {
+            return Err(("C07".into(), format!("[C07] the {} of T{} over steps {}..{} yielded key {} twice", what, t, inv, resp, w[0])));
+        }
+        let touched_before_end = |k: u32, inserts_only: bool| out.ops.iter().any(|e| e.key == k && e.inv <= *resp && (!inserts_only || matches!(e.op, HOp::SetInsert { .. })) && !matches!(e.op, HOp::Get { .. } | HOp::Contains { .. }));
+        for (k, _) in &out.init {
+            if !touched_before_end(*k, false) && !sorted.contains(k) {
+                return Err(("C07".into(), format!("[C07] the {} of T{} over steps {}..{} did not yield key {}, which was present and untouched for its whole duration (yielded {:?})", what, t, inv, resp, k, sorted)));
+            }
+        }
+        for k in &sorted {
+            if !out.init.contains_key(k) && !touched_before_end(*k, true) {
+                return Err(("C07".into(), format!("[C07] the {} of T{} over steps {}..{} yielded key {}, which was never in the set before it ended", what, t, inv, resp, k)));
+            }
+        }
     }
     let mut ents = out.ops.clone();
     // `retain` removes an element only if its (unit) value is still the one the traversal saw, and
@@ -445,7 +497,7 @@ pub fn minimize(pool: &Pool, prog: &SetProg, sw: &[(u64, u8)]) -> Vec<(u64, u8)>
     cur
 }
 
-fn sop_strategy(hot: u16) -> BoxedStrategy<SOp> {
+fn sop_strategy(hot: u16, walks: bool) -> BoxedStrategy<SOp> {
     // absent keys of a crowded bin are as likely as present ones
     let key = prop_oneof![3 => 0u16..hot.max(1), 2 => 0u16..4, 1 => hot..hot + 3].boxed();
     prop_oneof![
@@ -457,11 +509,13 @@ fn sop_strategy(hot: u16) -> BoxedStrategy<SOp> {
         1 => (0u8..3).prop_map(SOp::Retain),
         1 => (1u16..40).prop_map(SOp::Reserve),
         1 => Just(SOp::Len),
+        if walks { 5 } else { 0 } => (0u8..3).prop_map(SOp::IterAll),
+        if walks { 4 } else { 0 } => (0u8..2).prop_map(SOp::Serialize),
     ]
     .boxed()
 }
 
-pub fn prog_strategy(max_threads: usize, max_ops: usize) -> BoxedStrategy<SetProg> {
+pub fn prog_strategy(max_threads: usize, max_ops: usize, walks: bool) -> BoxedStrategy<SetProg> {
     let hm = prop_oneof![3 => Just(HMode::Identity), 2 => Just(HMode::Const0), 1 => Just(HMode::SameBin), 1 => Just(HMode::Mod4), 2 => Just(HMode::Mix)];
     let cap = prop_oneof![2 => Just(0u32), 1 => Just(1u32), 2 => Just(20u32), 2 => Just(42u32)];
     let fac = prop_oneof![Just(SFacade::GuardPerOp), Just(SFacade::GuardPerThread), Just(SFacade::Pin), Just(SFacade::WithGuard)];
@@ -475,7 +529,7 @@ pub fn prog_strategy(max_threads: usize, max_ops: usize) -> BoxedStrategy<SetPro
                 (2, n) => (0, (0..n).collect(), n),
                 (_, n) => (3, (0..n).collect(), 5),
             };
-            let thread = proptest::collection::vec(sop_strategy(hot), 1..=max_ops);
+            let thread = proptest::collection::vec(sop_strategy(hot, walks), 1..=max_ops);
             proptest::collection::vec(thread, nthreads..=nthreads).prop_map(move |threads| SetProg { hmode, capacity, facade, filler, init: init.clone(), threads })
         })
         .boxed()
